@@ -119,7 +119,13 @@ static void c07_chunk(sup::Ctx& ctx, sup::Rng& r, long n) {
       default: fmt = D + "%ET" + T + O; break;
     }
     bool ps = r.chance(0.08);
-    if (ps) fmt = r.chance(0.5) ? "%s" : "@%s " + O;
+    if (ps) {
+      // %s overrides every other field, also fields that could not stand alone (a month and day without a year)
+      static const char* const kWithS[] = {"%s", "%s", "@%s ", "%m/%d %s", "%b %d %H:%M:%S %s", "%s %H:%M", "%d.%m. %s", "%s %Y-%m-%d %H:%M:%S"};
+      int k = (int)r.range(0, 7);
+      fmt = kWithS[k];
+      if (k == 2) fmt += O;
+    }
     ZoneRec& pz = zone(r.next());
     if (!pz.ok) continue;
     // sometimes the same format is used twice in a row, the second time for a sibling instant with the same month, day
@@ -283,6 +289,25 @@ static void c08_wellformed(sup::Ctx& ctx, sup::Rng& r, long n) {
         t.ydep = st->ydep;
       }
       toks.push_back(t);
+    }
+    if (!nosys && r.chance(0.03)) {
+      // one delegated token repeated back to back (a single long run handed to strftime: the library's retry with
+      // growing buffers up to 16 times the run's length is what decides whether it renders)
+      const fm::SysTok* st;
+      do {
+        st = &fm::kSysToks[r.range(0, fm::kNumSysToks - 1)];
+      } while (st->ydep && !F.year_fits_tm());
+      C08Tok rt;
+      rt.kind = 3;
+      rt.text = st->text;
+      rt.ydep = st->ydep;
+      C08Tok head = toks.front(), tail = toks.back();
+      toks.clear();
+      if (head.kind == 1 && r.chance(0.5)) toks.push_back(head);
+      int reps = (int)r.range(2, 40);
+      for (int k = 0; k < reps; ++k) toks.push_back(rt);
+      if (tail.kind == 1 && r.chance(0.5)) toks.push_back(tail);
+      ctx.stat("C08.repeated_token_runs");
     }
     std::string fmt;
     bool zoneish = false;
@@ -752,9 +777,14 @@ struct DurMon {
     if constexpr (P::den == 1) {
     i128 num = P::num;
     i128 lo = (i128)std::numeric_limits<Rep>::min() * num, hi = (i128)std::numeric_limits<Rep>::max() * num + (num - 1);
-    if (lo < orc::I64MIN + 86400) lo = orc::I64MIN + 86400;
-    if (hi > orc::I64MAX - 86400) hi = orc::I64MAX - 86400;
+    if (lo < orc::I64MIN) lo = orc::I64MIN;
+    if (hi > orc::I64MAX) hi = orc::I64MAX;
     std::vector<i128> secs;
+    // the first and last ticks of the whole-second range (wide representations reach them)
+    for (i128 d : {(i128)0, (i128)1, (i128)2, (i128)59, (i128)60, (i128)61, (i128)3599, (i128)3600, (i128)3601, num - 1, num, num + 1, 2 * num - 1}) {
+      secs.push_back(orc::I64MIN + d);
+      secs.push_back(orc::I64MAX - d);
+    }
     for (i128 s = -3 * num - 2; s <= 3 * num + 2; s += (num > 600 ? num / 37 + 1 : 1)) secs.push_back(s);
     for (int k = -3; k <= 3; ++k)
       for (int d : {-1, 0, 1}) secs.push_back((i128)k * num + d);
